@@ -6,13 +6,13 @@ FIX_COMMITS = ["7de88560c5", "5379f6c8d1", "4b4b809cc2", "a6f4203039", "d8a222be
 CLAIMED = {
  # id: (design_ref, claim text, not covered / trusted base, technique)
  "C06": ("5/C06",
-   "Static rules over the type-checked SSA of x/lockup/keeper decide, for all inputs and histories at once, structural necessary conditions: coins sent == coins recorded == accumulation delta (same denom/duration keys), end time = block time + duration, matured-unlock guarded by IsUnlocking and BlockTime<EndTime and paying lock.Owner, index add/delete key symmetry, owner guards before every mutation, allow-listed callers of the low-level writers. Also: accumulation updates run for every coin of the lock (ForEach), ForceUnlock pays out the lock re-read after begin-unlock (freshness).",
+   "Static rules over the type-checked SSA of x/lockup/keeper decide, for all inputs and histories at once, structural necessary conditions: coins sent == coins recorded == accumulation delta (same denom/duration keys), end time = block time + duration, matured-unlock guarded by IsUnlocking and BlockTime<EndTime and paying lock.Owner, index add/delete key symmetry, owner guards before every mutation, allow-listed callers of the low-level writers. Also: accumulation updates run for every coin of the lock (ForEach), ForceUnlock pays out the lock re-read after begin-unlock (freshness). Also: genesis rebuild sums locks sharing (denom, duration).",
    "Not covered: index = primary records for every query shape over histories, sum-tree internals, conservation as a number. Trusted: go/types, go/ssa, bank keeper and KV store as effect primitives, SDK tx atomicity.",
    "SSA origin-term / dominance / call-graph rules (argument origin, guard, order, pairing, who-may-call)"),
 }
 
 CLAIMED["C12"] = ("5/C12",
-   "Case-partitioned abstract interpretation (sign(N) x sign(D) x rem=0 x |rem| vs half x quotient parity, enumerated exhaustively) of 41 rounding primitives of osmomath/decimal.go proves result = trunc(N/D)+delta with the delta of the documented mode for operands of either sign, with the documented power-of-ten scale/divisor constants evaluated from the package initialisers; effect analysis proves non-mutating forms never write an operand's big.Int and *Mut forms write only the receiver; every magnitude-growing BigDec operation asserts the bit-length bound on all paths. The asserted big.Int is the one returned.",
+   "Case-partitioned abstract interpretation (sign(N) x sign(D) x rem=0 x |rem| vs half x quotient parity, enumerated exhaustively) of 41 rounding primitives of osmomath/decimal.go proves result = trunc(N/D)+delta with the delta of the documented mode for operands of either sign, with the documented power-of-ten scale/divisor constants evaluated from the package initialisers; effect analysis proves non-mutating forms never write an operand's big.Int and *Mut forms write only the receiver; every magnitude-growing BigDec operation asserts the bit-length bound on all paths. The asserted big.Int is the one returned. The textual and the binary decoder reject exactly the values of more than maxBitLen bits.",
    "Not covered: exactness of math/big, LegacyDec internals, value-level round-trip of encodings. Trusted: math/big Quo/QuoRem truncation semantics, go/ssa.",
    "finite-domain abstract interpretation over SSA + alias/effect analysis + must-pass-through (dominance) rule")
 
@@ -22,7 +22,7 @@ CLAIMED["C16"] = ("5/C16",
    "SSA origin-term rules: return-value formulas under dominating nil-tests, phi-edge case analysis, stored-equals-reported pairing, guard/argument rules, unsigned interval (no-wrap) evaluation")
 
 CLAIMED["C15"] = ("5/C15",
-   "Static rules over osmoutils/accum decide: the claimable formula unclaimed + (value - snapshot) x shares; every share mutation folds accrued rewards into the record, writes old +/- delta shares under the same name, and updates the re-read accumulator total by the same delta with the same sign before persisting; failure guards (non-positive delta, remove > held, zero update, unknown position, negative rewards) precede all writes; claim resets or deletes exactly the claimer and truncates only via TruncateDecimal; the writers of position and accumulator records are the listed mutators.",
+   "Static rules over osmoutils/accum decide: the claimable formula unclaimed + (value - snapshot) x shares; every share mutation folds accrued rewards into the record, writes old +/- delta shares under the same name, and updates the re-read accumulator total by the same delta with the same sign before persisting; failure guards (non-positive delta, remove > held, zero update, unknown position, negative rewards) precede all writes; claim resets or deletes exactly the claimer and truncates only via TruncateDecimal; the writers of position and accumulator records are the listed mutators. Also: UpdatePositionIntervalAccumulation re-bases on the caller's interval value in both directions; every successful claim rewrites or deletes the record.",
    "Not covered: claim = sum of growth x shares over a history, total shares = sum of positions over histories (numeric/history clauses). Trusted: go/ssa, osmoutils store helpers, KV store.",
    "SSA origin-term / guard / order / who-may-call rules")
 CLAIMED["C17"] = ("5/C17",
@@ -31,17 +31,17 @@ CLAIMED["C17"] = ("5/C17",
    "SSA guard-disjunct (phi-expanded) dominance rules, cache-context containment, loop/CFG shape rules")
 
 CLAIMED["C13"] = ("5/C13",
-   "Only the 'fails loudly outside the domain' clause and structural side conditions: every documented domain guard of Exp2, the exp2 approximant, LogBase2, CustomBaseLog, Pow, PowApprox, the monotone square roots, OrderOfMagnitude, DivIntByU64ToBigDec and the binary searches is a branch to a panic/error exit on every path to a normal return, compared against the documented constant (evaluated from the package initialiser); the square roots increment r exactly when r^2 < d in both precisions; rounding-mode dispatch selects the matching division; the listed functions do not write their arguments. Also: binary searches (comparison argument order, which bound moves under which sign, return only when the tolerance is met), Pow splits integer and fractional exponent, SigFigRound rounds the scaled value to nearest.",
+   "Only the 'fails loudly outside the domain' clause and structural side conditions: every documented domain guard of Exp2, the exp2 approximant, LogBase2, CustomBaseLog, Pow, PowApprox, the monotone square roots, OrderOfMagnitude, DivIntByU64ToBigDec and the binary searches is a branch to a panic/error exit on every path to a normal return, compared against the documented constant (evaluated from the package initialiser); the square roots increment r exactly when r^2 < d in both precisions; rounding-mode dispatch selects the matching division; the listed functions do not write their arguments. Also: binary searches (comparison argument order, which bound moves under which sign, return only when the tolerance is met), Pow splits integer and fractional exponent, SigFigRound rounds the scaled value to nearest. Also: the tolerance comparisons return 'within tolerance' only when both configured tolerances were consulted and met, the relative error being the decimal quotient by min(|expected|,|actual|).",
    "Not covered: every numeric error bound, monotonicity, binary-search post-conditions (numeric clauses no static argument in reach bounds). Trusted: math/big Sqrt, go/ssa.",
    "SSA guard/dominance rules with constant evaluation + effect analysis")
 
 CLAIMED["C05"] = ("5/C05",
-   "Static rules over x/poolmanager (and the gamm / concentrated-liquidity swap entries) decide: execution and estimate hops apply the same-direction taker-fee formula to the same denom pair, use the pool's spread factor and chain hop outputs; rule L: every swap entry taking a caller limit returns only values compared with that limit on a failing branch or produced by a callee that received it, inner hops get the neutral limit and only the last hop the caller's; split routes sum legs and compare the sum; the taker-fee step's result depends only on quantities the estimate has (one recorded known finding: reduced-fee whitelist).",
+   "Static rules over x/poolmanager (and the gamm / concentrated-liquidity swap entries) decide: execution and estimate hops apply the same-direction taker-fee formula to the same denom pair, use the pool's spread factor and chain hop outputs; rule L: every swap entry taking a caller limit returns only values compared with that limit on a failing branch or produced by a callee that received it, inner hops get the neutral limit and only the last hop the caller's; split routes sum legs and compare the sum; the taker-fee step's result depends only on quantities the estimate has (one recorded known finding: reduced-fee whitelist). Also: the concentrated swap-loop transition is flag-independent and a failed gamm settlement transfer fails the route.",
    "Not covered: value-level equality of routed result and composition across pool types, state-untouched for cosmwasm pools, routes visiting a pool twice. Trusted: PoolModuleI implementations outside gamm/CL, SDK tx atomicity, go/ssa.",
    "SSA origin-term rules incl. limit-on-returned-value (L), phi-edge case rules, sibling agreement")
 
 CLAIMED["C19"] = ("5/C19",
-   "Syntax-tree analyses over the type-checked workspace decide: (X-det) every map range in state-machine code has an order-independent body or is collect-then-sort, and no wall-clock time (except feeding telemetry/logging), randomness, environment read, goroutine or select occurs there, each exception being one named construct with a reason; (X-gen) every field of each of the 18 module GenesisStates is consumed by InitGenesis and produced by ExportGenesis, and InitGenesis does not overwrite imported fields except nil/zero-defaulting; (X-mem) every write to in-memory keeper state is wiring, a rebuild from the store, or a self-validating cache. 3 recorded known findings (poolmanager caches written during message execution); the mint genesis overwrite was repaired. (X-gen-loop) every call in an InitGenesis import loop runs on every iteration. Also: side conditions of the pool-module cache (a hit charges the recorded gas of the read it replaces; filled only in finalize mode; invalidated by the only writer) and genesis rebuild of lockup accumulations keyed like the running chain.",
+   "Syntax-tree analyses over the type-checked workspace decide: (X-det) every map range in state-machine code has an order-independent body or is collect-then-sort, and no wall-clock time (except feeding telemetry/logging), randomness, environment read, goroutine or select occurs there, each exception being one named construct with a reason; (X-gen) every field of each of the 18 module GenesisStates is consumed by InitGenesis and produced by ExportGenesis, and InitGenesis does not overwrite imported fields except nil/zero-defaulting; (X-mem) every write to in-memory keeper state is wiring, a rebuild from the store, or a self-validating cache. 3 recorded known findings (poolmanager caches written during message execution); the mint genesis overwrite was repaired. (X-gen-loop) every call in an InitGenesis import loop runs on every iteration. Also: side conditions of the pool-module cache (a hit charges the recorded gas of the read it replaces; filled only in finalize mode; invalidated by the only writer) and genesis rebuild of lockup accumulations keyed like the running chain. Also: poolmanager import order (params before taker-fee overrides), pool-incentives key prefixes closed by the separator, lockup genesis rebuild sums per key.",
    "Not covered: bit-identical app hash, losslessness of exported values beyond field coverage, nondeterminism inside dependencies. Trusted: go/types; scoping by package class.",
    "AST/type-based determinism lint, genesis field-coverage analysis, keeper-field write scan with call-graph classification")
 FIX_COMMITS.append("59282cb358")
@@ -49,17 +49,17 @@ FIX_COMMITS.append("d2a0ad067f")
 FIX_COMMITS += ["35b50d1c51", "5b670324a2", "bcb8c3a391", "1a10ebd7f7"]
 
 CLAIMED["C20"] = ("5/C20",
-   "Interprocedural guard propagation (rule GI) over the workspace call graph: for all 37 message handlers of concentrated-liquidity, lockup, superfluid, tokenfactory and valset-pref (signer field read from each message's GetSigners), every bounded-depth call path to a privileged sink (lock, position and denom mutators) carries a branch that compares a signer-identity value with the stored object's owner/admin and fails on mismatch — directly, via a checked guard helper, inside the sink on all success paths, or modulo the governance-module equality — with three creation/own-index exemptions listed with side conditions. Also: tokenfactory mint/burn/force-transfer never touch protected module accounts (guards on the very addresses credited/debited, on every iteration over all protected modules; the protected set holds every module account's address).",
+   "Interprocedural guard propagation (rule GI) over the workspace call graph: for all 37 message handlers of concentrated-liquidity, lockup, superfluid, tokenfactory and valset-pref (signer field read from each message's GetSigners), every bounded-depth call path to a privileged sink (lock, position and denom mutators) carries a branch that compares a signer-identity value with the stored object's owner/admin and fails on mismatch — directly, via a checked guard helper, inside the sink on all success paths, or modulo the governance-module equality — with three creation/own-index exemptions listed with side conditions. Also: tokenfactory mint/burn/force-transfer never touch protected module accounts (guards on the very addresses credited/debited, on every iteration over all protected modules; the protected set holds every module account's address). Also: the module-account scan of forceTransfer covers the whole protected list; tokenfactory import writes every exported authority record.",
    "Not covered: 'all balances and records unchanged' on failure (SDK transaction atomicity trusted), object reachability over histories, wasm hooks. Bounds: call depth 7, helper depth 3; class-hierarchy resolution of interface calls.",
    "call-graph obligation propagation with SSA guard facts (actor-identity / owner-like term classification)")
 
 CLAIMED["C03"] = ("5/C03",
-   "Direction inference (abstract interpretation over {EXACT,GE,LE,ANY} with in-place *Mut object updates) proves each of the four next-sqrt-price functions returns a value on its documented side of the exact formula; rounding-class region rules prove CalcAmount0/1Delta use only round-up operations under roundUp and only truncations otherwise; per swap step in all four strategy functions amount-in is computed with roundUp=true and DecRoundUp, amount-out with roundUp=false and Dec(), the fee by round-up multiplication or exact remainder, with the matching price function; estimates run the same compute function with the same arguments on a never-written cache context; the progress/overshoot/no-progress/overcharge guards precede the loop's state updates; totals ceil amount-in and truncate amount-out.",
+   "Direction inference (abstract interpretation over {EXACT,GE,LE,ANY} with in-place *Mut object updates) proves each of the four next-sqrt-price functions returns a value on its documented side of the exact formula; rounding-class region rules prove CalcAmount0/1Delta use only round-up operations under roundUp and only truncations otherwise; per swap step in all four strategy functions amount-in is computed with roundUp=true and DecRoundUp, amount-out with roundUp=false and Dec(), the fee by round-up multiplication or exact remainder, with the matching price function; estimates run the same compute function with the same arguments on a never-written cache context; the progress/overshoot/no-progress/overcharge guards precede the loop's state updates; totals ceil amount-in and truncate amount-out. Also: the per-step swap-state transition (totals, liquidity after a crossing, tick) is independent of the estimate/execute flag; execution uses the caller's spread factor; checked settlement transfers.",
    "Not covered: distance from the exact rational curve, value equality of estimate and execution, round-trip inequality, 18/36-digit regimes (numeric). Assumes positive operands in the direction inference. Trusted: C12's rounding classes, go/ssa.",
    "direction-lattice abstract interpretation + rounding-class dataflow + SSA guard/order/cache-context rules")
 
 CLAIMED["C01"] = ("5/C01",
-   "Rounding-class dataflow and origin-term rules over concentrated-liquidity decide the structural solvency conditions: deposits and amounts charged use only round-up operations, withdrawals, pay-outs, reward growth and claims only truncations (CalcAmount0/1Delta by branch, CalcActualAmounts flag = sign of the liquidity delta, TruncateInt/DecRoundUp/Dec conversions, fee ceiling); every transfer out of a pool, spread-reward or incentive account is exactly the amount just computed, to the position owner, from the matching account; and the set of functions that send from pool-owned accounts is closed. Also: swap totals ceil the charged and truncate the paid amount; an exhausted incentive record is deleted exactly when it exists and nothing remains and only positive remainders are written; dust is divided by the remaining shares only when some remain.",
+   "Rounding-class dataflow and origin-term rules over concentrated-liquidity decide the structural solvency conditions: deposits and amounts charged use only round-up operations, withdrawals, pay-outs, reward growth and claims only truncations (CalcAmount0/1Delta by branch, CalcActualAmounts flag = sign of the liquidity delta, TruncateInt/DecRoundUp/Dec conversions, fee ceiling); every transfer out of a pool, spread-reward or incentive account is exactly the amount just computed, to the position owner, from the matching account; and the set of functions that send from pool-owned accounts is closed. Also: swap totals ceil the charged and truncate the paid amount; an exhausted incentive record is deleted exactly when it exists and nothing remains and only positive remainders are written; dust is divided by the remaining shares only when some remain. Also: a position's checkpoint in uptime accumulator i is re-based on the growth of the same uptime i.",
    "Not covered: that accumulated dust over a history covers every claim, lock-bound positions, negative interval accumulator values (history/magnitude clauses). Trusted: C12 rounding classes, bank SendCoins semantics.",
    "rounding-class dataflow (with constant-argument-sensitive helper summaries) + SSA origin-term / guard / who-may-send rules")
 CLAIMED["C07"] = ("5/C07",
@@ -68,42 +68,42 @@ CLAIMED["C07"] = ("5/C07",
    "SSA origin-term / predicate-shape / order / who-may-call rules")
 
 CLAIMED["C18"] = ("5/C18",
-   "Static rules over x/mint decide: minted coin == distributed coin == truncated epoch provision; community-pool amount = minted - staking - pool-incentives - developer share with each term being the amount the distribute call reports it moved; shares are truncated proportions with ratio > 1 rejected; the provision is reduced exactly under epoch >= period + last reduction (strict comparison direction checked), together with SetMinter and the new last-reduction epoch and never after minting; nothing is minted before the start epoch or for another epoch identifier; developer rewards are burned from the mint account and paid from the vesting account inside a +/- supply-offset bracket.",
+   "Static rules over x/mint decide: minted coin == distributed coin == truncated epoch provision; community-pool amount = minted - staking - pool-incentives - developer share with each term being the amount the distribute call reports it moved; shares are truncated proportions with ratio > 1 rejected; the provision is reduced exactly under epoch >= period + last reduction (strict comparison direction checked), together with SetMinter and the new last-reduction epoch and never after minting; nothing is minted before the start epoch or for another epoch identifier; developer rewards are burned from the mint account and paid from the vesting account inside a +/- supply-offset bracket. Also: the epoch hook wrapper fails when the keeper's epoch step fails.",
    "Not covered: mint account empty / supply growth as numbers, long-run schedule. Trusted: bank keeper, epoch hook invoked once per epoch (C17).",
    "SSA origin-term / guard-disjunct / order rules")
 
 CLAIMED["C10"] = ("5/C10",
-   "Static rules over x/twap decide: accumulators advance by the old record's last spot price (P0->P0, P1->P1, log2(P0)->geometric) times the canonical-ms difference between the record's time and the new time; the arithmetic strategy reads the quote side's accumulator; the geometric result is inverted exactly under (negative & quote0) or (non-negative & not quote0) (path-sensitive boolean-join expansion); the three error-flag comparisons exist; zero price stamps the error time; lookup is reverse iteration ending at t; pruning deletes only after skipping the newest record; new records update both indexes. Also: path-resolved cases of getSpotPrices (error or clamp => error time = block time, value = maximum; neither => previous error time); EndBlock updates every changed pool.",
+   "Static rules over x/twap decide: accumulators advance by the old record's last spot price (P0->P0, P1->P1, log2(P0)->geometric) times the canonical-ms difference between the record's time and the new time; the arithmetic strategy reads the quote side's accumulator; the geometric result is inverted exactly under (negative & quote0) or (non-negative & not quote0) (path-sensitive boolean-join expansion); the three error-flag comparisons exist; zero price stamps the error time; lookup is reverse iteration ending at t; pruning deletes only after skipping the newest record; new records update both indexes. Also: path-resolved cases of getSpotPrices (error or clamp => error time = block time, value = maximum; neither => previous error time); EndBlock updates every changed pool. Also: the key builders of the record indexes agree on a layout in which pool id and denoms are closed by the separator.",
    "Not covered: TWAP = time-weighted mean as a value, min/max bounds, reciprocity, precision (integral over histories). Trusted: Exp2/log2 accuracy, go/ssa.",
    "SSA origin-term rules + path-sensitive guard disjuncts")
 
 CLAIMED["C09"] = ("5/C09",
-   "Static rules over x/incentives decide: budget = coins - distributed over remaining epochs (1 if perpetual, paid-over - filled otherwise; 0 is an error); a lock's share is lock amount x remaining coin integer-divided by lock sum x remaining epochs with no round-up operation anywhere in the distribution; the receiver is the lock's reward receiver or, exactly when empty, its owner; the coins put on a pay-out entry (and handed to a concentrated pool's incentive record) are added to the distributed total (paired-argument rule), which is booked with one filled epoch; pay-outs leave the incentives module to the index-aligned receiver list; activation at start time precedes distribution; finishing only for non-perpetual gauges whose last epoch was filled. Also: loops over locks and gauge coins are left early only by failing; the per-denom lock cache is filled from the minimal duration and filtered per gauge.",
+   "Static rules over x/incentives decide: budget = coins - distributed over remaining epochs (1 if perpetual, paid-over - filled otherwise; 0 is an error); a lock's share is lock amount x remaining coin integer-divided by lock sum x remaining epochs with no round-up operation anywhere in the distribution; the receiver is the lock's reward receiver or, exactly when empty, its owner; the coins put on a pay-out entry (and handed to a concentrated pool's incentive record) are added to the distributed total (paired-argument rule), which is booked with one filled epoch; pay-outs leave the incentives module to the index-aligned receiver list; activation at start time precedes distribution; finishing only for non-perpetual gauges whose last epoch was filled. Also: loops over locks and gauge coins are left early only by failing; the per-denom lock cache is filled from the minimal duration and filtered per gauge. Also: strict minimum-value tests; Distribute and the epoch hook wrapper fail when the pay-out / keeper step fails.",
    "Not covered: sum over epochs <= deposit, module balance >= remainders over histories, group gauges. Trusted: bank multi-send semantics, go/ssa.",
    "SSA origin-term / paired-argument / rounding-class rules")
 
 CLAIMED["C14"] = ("5/C14",
-   "Constant-consistency and guard rules: declared tick bounds equal the documented values and the price bounds' initialisers are the documented powers of ten, ticks-per-decade = 9*10^6; out-of-range ticks/prices are rejected by guards against exactly those constants; the 18-digit square root is used exactly for ticks >= -108000000 (prices >= 10^-12 chopped to 18 digits), the 36-digit one otherwise; RoundDownTickToSpacing makes the remainder Euclidean and returns tick or tick - remainder; the sqrt-price->tick correction compares with neighbouring ticks using >= / >= / <.",
+   "Constant-consistency and guard rules: declared tick bounds equal the documented values and the price bounds' initialisers are the documented powers of ten, ticks-per-decade = 9*10^6; out-of-range ticks/prices are rejected by guards against exactly those constants; the 18-digit square root is used exactly for ticks >= -108000000 (prices >= 10^-12 chopped to 18 digits), the 36-digit one otherwise; RoundDownTickToSpacing makes the remainder Euclidean and returns tick or tick - remainder; the sqrt-price->tick correction compares with neighbouring ticks using >= / >= / <. Also: GetSqrtPriceLimit has inclusive bounds and regime-matching square roots.",
    "Not covered: monotonicity/exactness of tick->price over 4.5*10^8 ticks and the inverse property (numeric enumeration). Trusted: osmomath monotone square roots (C13).",
    "go/constant evaluation + SSA guard / predicate-shape rules")
 
 CLAIMED["C11"] = ("5/C11",
-   "Static rules over x/superfluid (and lockup's BeginUnlock) decide: mint-for-delegation is paired with a supply offset of the negated amount and the same amount is sent to the intermediary account and delegated; undelegation sends back and burns exactly the instantly-undelegated coins and raises the offset by their bond-denom amount; all cache-context closures of the package use only their own context; delegate records the lock/intermediary connection and a bonded synthetic lock after validating ownership and before staking, undelegate removes both and leaves an unlocking marker; unbonding requires an unlocking synthetic lock; lockup refuses to begin unlocking a lock with synthetic locks. Also: epoch refresh (current stake 0 or tokens-from-shares, mint/burn by the difference in the right direction, expected = OSMO value of the marker accumulation from the unbonding time up) and staking/unstaking markers (one per lock, denom and end time by status, end = block time + unbonding period, accumulation keyed by the marker's duration on create/delete/top-up/slash).",
+   "Static rules over x/superfluid (and lockup's BeginUnlock) decide: mint-for-delegation is paired with a supply offset of the negated amount and the same amount is sent to the intermediary account and delegated; undelegation sends back and burns exactly the instantly-undelegated coins and raises the offset by their bond-denom amount; all cache-context closures of the package use only their own context; delegate records the lock/intermediary connection and a bonded synthetic lock after validating ownership and before staking, undelegate removes both and leaves an unlocking marker; unbonding requires an unlocking synthetic lock; lockup refuses to begin unlocking a lock with synthetic locks. Also: epoch refresh (current stake 0 or tokens-from-shares, mint/burn by the difference in the right direction, expected = OSMO value of the marker accumulation from the unbonding time up) and staking/unstaking markers (one per lock, denom and end time by status, end = block time + unbonding period, accumulation keyed by the marker's duration on create/delete/top-up/slash). Also: the risk-adjusted value formula and its inverse; synthetic-lock genesis rebuild sums per key; the epoch hook wrapper fails when the keeper step fails.",
    "Not covered: stake = risk-adjusted value within one unit per lock, supply neutrality as a number, drift over epochs. Trusted: staking keeper semantics, cache-context helper (C17).",
    "SSA origin-term / pairing / order rules + cache-context closure containment")
 
 CLAIMED["C02"] = ("5/C02",
-   "Static rules over x/gamm/keeper and x/poolmanager decide: every pool-record mutation is paired on every success path with bank operations on the same coin values (swap: token-in trader->pool, token-out pool->trader; join: coins + share mint; exit: coins + share burn); share mint/burn use the pool's own share denom and the same amount; each of the six join/exit/swap entry points hands the state-change helper exactly the values it gave to or received from the pool model (paired-result rule); the taker fee is the exact difference between the amount paid and the amount that reaches the pool, computed from the very value returned, sent to the collector; the router passes the after-fee coin; pool records are written only by the listed functions. Also: every gamm entry changes the pool model exactly once and settles exactly once (quotes use the read-only Calc* form); the router hands a pool module the pool as read for this hop (freshness with kill semantics).",
+   "Static rules over x/gamm/keeper and x/poolmanager decide: every pool-record mutation is paired on every success path with bank operations on the same coin values (swap: token-in trader->pool, token-out pool->trader; join: coins + share mint; exit: coins + share burn); share mint/burn use the pool's own share denom and the same amount; each of the six join/exit/swap entry points hands the state-change helper exactly the values it gave to or received from the pool model (paired-result rule); the taker fee is the exact difference between the amount paid and the amount that reaches the pool, computed from the very value returned, sent to the collector; the router passes the after-fee coin; pool records are written only by the listed functions. Also: every gamm entry changes the pool model exactly once and settles exactly once (quotes use the read-only Calc* form); the router hands a pool module the pool as read for this hop (freshness with kill semantics). Also: join/exit entries and pool creation fail when the state change / initial-liquidity transfer fails.",
    "Not covered: bank balance = reported reserves over histories, supply of non-share tokens, cosmwasm pools, pool-model internals. Trusted: bank keeper semantics.",
    "SSA origin-term / pairing (paired-argument, paired-result) / who-may-call rules")
 
 CLAIMED["C04"] = ("5/C04",
-   "Static rules over the balancer / stableswap pool models and cfmm_common decide: amounts paid out are truncated and amounts charged ceiled at the pool boundary; the spread factor is taken off the input before the curve and grossed up on the required input; exit amounts are truncated with the share and reserve guards in place; proportional joins truncate shares and ceil the used amount; the stableswap solver scales reserves/input down, the requested output up and divides by (1-sf) rounding up; each state-mutating swap returns exactly its pure calculation's result for the same arguments and applies exactly those coins to the reserves. Also: the balancer single-asset join/exit formulas apply the fee ratio in the pool's favour (Mul on deposits, Quo on required deposits and withdrawals, 1/(1-exit fee) on shares), the single-asset leg is priced against the caller's interim reserve and share total, and the all-asset join mints exactly the shares the model credited.",
+   "Static rules over the balancer / stableswap pool models and cfmm_common decide: amounts paid out are truncated and amounts charged ceiled at the pool boundary; the spread factor is taken off the input before the curve and grossed up on the required input; exit amounts are truncated with the share and reserve guards in place; proportional joins truncate shares and ceil the used amount; the stableswap solver scales reserves/input down, the requested output up and divides by (1-sf) rounding up; each state-mutating swap returns exactly its pure calculation's result for the same arguments and applies exactly those coins to the reserves. Also: the balancer single-asset join/exit formulas apply the fee ratio in the pool's favour (Mul on deposits, Quo on required deposits and withdrawals, 1/(1-exit fee) on shares), the single-asset leg is priced against the caller's interim reserve and share total, and the all-asset join mints exactly the shares the model credited. Also: join/exit entries fail when the state change fails.",
    "Not covered: agreement with the constant-weighted-product formula to powPrecision, monotonicity of the stableswap invariant, value conservation over sequences (numeric). Trusted: osmomath Pow / binary search (C13).",
    "SSA origin-term / rounding-class / sibling-agreement rules")
 
 CLAIMED["C08"] = ("5/C08",
-   "Static rules over concentrated-liquidity reward code decide: crossing flips tick snapshots to (global + this swap's growth) - old and global - old per uptime; a new tick starts with the global value iff current >= tick; growth above/below follows the documented four-case table and uptime growth inside the three-way split (path-sensitive condition matching with infeasible-path pruning); accumulators are accrued to now before positions, ticks or incentive records change and before a position claims; claim = set(init + outside) -> claim -> re-base to global - outside if the position still exists; emission deducts exactly the emitted amount only when the record covers it and only feeds the accumulator of its own uptime; the position age (block time - join time) is compared with each uptime with <. Also: one scaling factor per accumulator family, used by growth and claim alike (who-may-call + argument rules); redeposited forfeits start from zero per uptime (no loop-carried accumulator) and are amount / active liquidity.",
+   "Static rules over concentrated-liquidity reward code decide: crossing flips tick snapshots to (global + this swap's growth) - old and global - old per uptime; a new tick starts with the global value iff current >= tick; growth above/below follows the documented four-case table and uptime growth inside the three-way split (path-sensitive condition matching with infeasible-path pruning); accumulators are accrued to now before positions, ticks or incentive records change and before a position claims; claim = set(init + outside) -> claim -> re-base to global - outside if the position still exists; emission deducts exactly the emitted amount only when the record covers it and only feeds the accumulator of its own uptime; the position age (block time - join time) is compared with each uptime with <. Also: one scaling factor per accumulator family, used by growth and claim alike (who-may-call + argument rules); redeposited forfeits start from zero per uptime (no loop-carried accumulator) and are amount / active liquidity. Also: same-uptime re-basing in initOrUpdatePositionUptimeAccumulators.",
    "Not covered: proportionality / identical positions earn identical rewards as numbers, totals claimable vs paid in over histories. Trusted: osmoutils/accum (C15), go/ssa.",
    "SSA origin-term / path-sensitive predicate / order rules")
 
